@@ -234,7 +234,8 @@ def gen_case(world, tier, prop):
     root = {'dict': [['r%d' % k, {'share': rng.choice(node_ids)}] for k in range(rng.randint(1, 3))], 'id': 900002}
   full = [s for s in stubmod.EXC_SHAPES
           if s not in ('B_Base', 'SystemExit', 'GeneratorExit',
-                       'KeyboardInterrupt', 'NoSubclassHook', 'FinalMeta')]
+                       'KeyboardInterrupt', 'NoSubclassHook', 'FinalMeta',
+                       'TransientHook')]
   degraded = [s for s in stubmod.EXC_SHAPES if s not in full]
   shape = frng.choice(full) if frng.random() < 0.75 else frng.choice(degraded)
   fmt = frng.choice([None, None, None, 'exc', 'base'])
@@ -255,6 +256,8 @@ def gen_case(world, tier, prop):
     case['edits'] = gen_edits(erng, defs, node_ids, new_id, token)
   if erng.random() < 0.2:
     case['unconfig_before_raise'] = erng.choice(['ok', 'fails'])
+  if erng.random() < 0.2:
+    case['swapped'] = True
   return case
 
 
@@ -485,6 +488,7 @@ def run(case):
   mk_i = M.Maker('impl', fns, svs)
   stubmod.Hostile.mode = None
   stubmod.Hostile.fired = 0
+  stubmod.E_TransientHook.armed[0] = True
   res = {'violations': [], 'faults': {}, 'probes': {}, 'steps': 0,
          'state_hashes': [], 'nontrivial': False}
   faults, probes, viols = res['faults'], res['probes'], res['violations']
@@ -525,6 +529,24 @@ def run(case):
           bump(faults, 'refused_op')
         else:
           raise AssertionError('harness: update_callable was expected to be refused')
+  if case.get('swapped') and not case.get('refused'):
+    # history: a SUCCESSFUL update_callable(drop_invalid_args=True) on nodes
+    # whose dropped argument carries a tag (the tag stays behind)
+    from fiddle._src import mutate_buildable
+    from fiddle._src import tagging as _tagging
+    swap = {'n0': ('z', 'n0b'), 'n0b': ('w', 'n0')}
+    done = 0
+    for bm, bi in zip(mk_m.nodes, mk_i.nodes):
+      name = getattr(bi.__fn_or_cls__, '__name__', None)
+      if name in swap and swap[name][0] in bi.__arguments__ and done < 3:
+        arg, new_fn = swap[name]
+        _tagging.add_tag(bi, arg, stubmod.TAGS['T0'])
+        mutate_buildable.update_callable(bi, fns[new_fn], drop_invalid_args=True)
+        bm.named.pop(arg, None)
+        bm.fn, bm.sv = fns[new_fn], mk_m.sv(new_fn)
+        done += 1
+    if done:
+      bump(probes, 'callable_swapped_leaving_a_tag', done)
   def fault_free_phase(n_builds, label):
     """Direct evaluation of the CURRENT model graph, then n_builds fault-free
     fdl.build calls checked against it.  Returns the derived tables, or None
@@ -652,6 +674,8 @@ def run(case):
     import contextlib
     for e in case['edits']:
       nm, ni = mk_m.memo[e['n']], mk_i.memo[e['n']]
+      if not nm.can_setattr(e['name']):
+        continue      # (the node's callable was swapped for one without it)
       if e.get('del'):
         if e['name'] not in nm.named:
           continue
